@@ -1883,6 +1883,191 @@ theorem inv4_run {s : PState} {sp : Spec} (ops : List Op) (h : Inv4 s) (h2 : Inv
   | nil => exact h
   | cons op ops ih => unfold runBoth stepBoth; exact ih (inv4_step op h h2) (inv2_step op h2)
 
+/-! ## thresholds -/
+
+theorem needFlush_false {cfg : Cfg} {mem len : Nat} {fl : Bool} (h : needFlush cfg mem len fl = false) :
+    mem < cfg.minSize ∨ mem < cfg.forceSize := by
+  unfold needFlush at h
+  by_cases h1 : (decide (mem < cfg.minSize) || (decide (len < cfg.minKeys) && decide (mem < cfg.forceSize))) = true
+  · simp only [Bool.or_eq_true, Bool.and_eq_true, decide_eq_true_eq] at h1
+    rcases h1 with h1 | ⟨_, h1⟩
+    · exact Or.inl h1
+    · exact Or.inr h1
+  · simp only [h1, Bool.false_eq_true, if_false] at h
+    by_cases h2 : (fl && decide (mem < cfg.forceSize)) = true
+    · simp only [Bool.and_eq_true, decide_eq_true_eq] at h2; exact Or.inr h2.2
+    · simp [h2] at h
+
+theorem needFlush_above {cfg : Cfg} {mem len : Nat} {fl : Bool} (h1 : cfg.minSize ≤ mem) (h2 : cfg.forceSize ≤ mem) :
+    needFlush cfg mem len fl = true := by
+  cases h : needFlush cfg mem len fl with
+  | true => rfl
+  | false => rcases needFlush_false h with h3 | h3 <;> omega
+
+theorem doFlush_notFlushed {s : PState} {force : Bool} {mem : Nat} {late : Completion}
+    (h : (doFlush s force mem late).2 = .notFlushed) :
+    force = false ∧ needFlush s.cfg mem s.mbuf.length s.running = false := by
+  unfold doFlush at h
+  simp only at h
+  by_cases hst : (!s.stages.isEmpty) = true
+  · simp [hst] at h
+  · simp only [hst, Bool.false_eq_true, if_false] at h
+    by_cases hn : (!force && !needFlush s.cfg mem s.mbuf.length s.running) = true
+    · simp only [Bool.and_eq_true, Bool.not_eq_true'] at hn; exact hn
+    · simp only [hn, Bool.false_eq_true, if_false] at h
+      exfalso
+      by_cases hf : s.flushing.isSome = true
+      · simp only [hf, if_true] at h
+        rcases flushAfterWait_cases (await { s with cache := none } late) with ⟨_, he⟩ | ⟨_, he⟩
+        · rw [he] at h; unfold failWith at h; cases h
+        · rw [he] at h
+          obtain ⟨rpc, ho⟩ := (start_fields (await { s with cache := none } late)).2.2.2.2.2.2.2.2.2.2.2
+          rw [ho] at h; cases h
+      · simp only [hf, Bool.false_eq_true, if_false] at h
+        obtain ⟨rpc, ho⟩ := (start_fields { s with cache := none }).2.2.2.2.2.2.2.2.2.2.2
+        rw [ho] at h; cases h
+
+theorem doFlush_flushed_empties {s : PState} {force : Bool} {mem : Nat} {late : Completion} {g : Nat} {b : Buf} {rpc : Bool}
+    (h : (doFlush s force mem late).2 = .flushed g b rpc) : (doFlush s force mem late).1.mbuf = [] := by
+  rcases doFlush_cases s force mem late with hd | ⟨_, hd⟩ | ⟨_, _, hd⟩ | ⟨_, _, hd⟩
+  · rw [hd] at h; cases h
+  · rw [hd] at h; cases h
+  · rcases flushAfterWait_cases (await { s with cache := none } late) with ⟨_, he⟩ | ⟨_, he⟩
+    · rw [hd, he] at h; unfold failWith at h; cases h
+    · rw [hd, he]; exact (start_fields _).2.1
+  · rw [hd]; exact (start_fields _).2.1
+
+/-! ## the bounds kept by the callback describe the keys it has sent (whole op sequences) -/
+
+structure Inv5 (s : PState) : Prop where
+  mbufKeys : ∀ e ∈ s.mbuf, e.1 ≠ []
+  stageKeys : ∀ m ∈ s.stages, ∀ e ∈ m, e.1 ≠ []
+  lockKeysNe : ∀ k ∈ s.lockKeys, k ≠ []
+  bounds : boundsInv s.lockKeys (s.pStart, s.pEnd)
+
+theorem inv5_congr {s s' : PState} (h : Inv5 s) (h1 : s'.mbuf = s.mbuf) (h2 : s'.stages = s.stages)
+    (h3 : s'.lockKeys = s.lockKeys) (h4 : s'.pStart = s.pStart) (h5 : s'.pEnd = s.pEnd) : Inv5 s' :=
+  ⟨by rw [h1]; exact h.mbufKeys, by rw [h2]; exact h.stageKeys, by rw [h3]; exact h.lockKeysNe,
+   by rw [h3, h4, h5]; exact h.bounds⟩
+
+theorem boundsInv_perm {K K' : List Bytes} {p : Bytes × Bytes} (hm : ∀ k, k ∈ K ↔ k ∈ K') (h : boundsInv K p) :
+    boundsInv K' p := by
+  rcases h with ⟨h0, hp⟩ | ⟨h1, g, hg, hpe, h3⟩
+  · left
+    refine ⟨?_, hp⟩
+    apply List.eq_nil_iff_forall_not_mem.mpr
+    intro k hk; rw [← hm k, h0] at hk; cases hk
+  · right
+    exact ⟨(hm _).mp h1, g, (hm _).mp hg, hpe, fun k hk => h3 k ((hm k).mpr hk)⟩
+
+@[simp] theorem complete_lockKeys (s c) : (complete s c).lockKeys = s.lockKeys := by unfold complete; split <;> rfl
+@[simp] theorem complete_pStart (s c) : (complete s c).pStart = s.pStart := by unfold complete; split <;> rfl
+@[simp] theorem complete_pEnd (s c) : (complete s c).pEnd = s.pEnd := by unfold complete; split <;> rfl
+
+theorem inv5_await {s : PState} (c : Completion) (h : Inv5 s) : Inv5 (await s c) := by
+  unfold await; split
+  · exact inv5_congr h (by simp) (by simp) (by simp) (by simp) (by simp)
+  · exact h
+
+theorem inv5_start {s : PState} (h : Inv5 s) : Inv5 (start s).1 := by
+  unfold start
+  by_cases h1 : s.cfg.layer = true
+  · by_cases h2 : s.ttl = .closed
+    · simp only [h1, h2, if_true, beq_self_eq_true]
+      exact ⟨(by intro e he; cases he), h.stageKeys, h.lockKeysNe, h.bounds⟩
+    · have h2' : (s.ttl == TTL.closed) = false := by simpa using h2
+      by_cases h3 : s.mbuf.isEmpty = true
+      · simp only [h1, h2', h3, if_true, Bool.false_eq_true, if_false]
+        exact ⟨(by intro e he; cases he), h.stageKeys, h.lockKeysNe, h.bounds⟩
+      · simp only [h1, h2', h3, if_true, Bool.false_eq_true, if_false]
+        have hks : ∀ k ∈ s.mbuf.keys, k ≠ [] := by
+          intro k hk
+          obtain ⟨e, he, hek⟩ := List.mem_map.mp hk
+          rw [← hek]; exact h.mbufKeys e he
+        have hne : s.mbuf.keys ≠ [] := by
+          intro hnil
+          have : s.mbuf = [] := by simpa [Buf.keys] using hnil
+          rw [this] at h3; simp at h3
+        refine ⟨(by intro e he; cases he), h.stageKeys, ?_, ?_⟩
+        · intro k hk
+          rcases List.mem_append.mp hk with hk | hk
+          · exact hks k hk
+          · exact h.lockKeysNe k hk
+        · exact boundsInv_perm (fun k => by simp [List.mem_append, or_comm])
+            (updBounds_inv h.lockKeysNe h.bounds hne)
+  · simp only [h1]
+    exact ⟨(by intro e he; cases he), h.stageKeys, h.lockKeysNe, h.bounds⟩
+
+theorem mem_erase {b : Buf} {k : Bytes} {e : Bytes × Bytes} (h : e ∈ b.erase k) : e ∈ b :=
+  (List.mem_filter.mp h).1
+
+theorem inv5_write {s : PState} (k v : Bytes) (hk : k ≠ []) (h : Inv5 s) : Inv5 { s with mbuf := s.mbuf.put k v } :=
+  ⟨by
+    intro e he
+    rcases List.mem_cons.mp he with h1 | h1
+    · rw [h1]; exact hk
+    · exact h.mbufKeys e (mem_erase h1),
+   h.stageKeys, h.lockKeysNe, h.bounds⟩
+
+theorem inv5_step {s : PState} (op : Op) (hok : op.keyOk = true) (h : Inv5 s) : Inv5 (step s op).1 := by
+  cases op with
+  | set k v =>
+    simp only [step]; split
+    · exact h
+    · exact inv5_write k v (by simpa [Op.keyOk] using hok) h
+  | del k => exact inv5_write k [] (by simpa [Op.keyOk] using hok) h
+  | get k => exact h
+  | batchGet ks => simp only [step]; rw [batchGet_fields]; exact inv5_congr h rfl rfl rfl rfl rfl
+  | flush force mem late =>
+    simp only [step]
+    have h1 : Inv5 { s with cache := none } := inv5_congr h rfl rfl rfl rfl rfl
+    rcases doFlush_cases s force mem late with hd | ⟨_, hd⟩ | ⟨_, _, hd⟩ | ⟨_, _, hd⟩
+    · rw [hd]; exact h1
+    · rw [hd]; exact h1
+    · rw [hd]
+      have h2 := inv5_await late h1
+      rcases flushAfterWait_cases (await { s with cache := none } late) with ⟨_, he⟩ | ⟨_, he⟩
+      · rw [he]; exact inv5_congr h2 rfl rfl rfl rfl rfl
+      · rw [he]; exact inv5_start h2
+    · rw [hd]; exact inv5_start h1
+  | flushDone c =>
+    simp only [step]; split
+    · exact inv5_congr h (by simp) (by simp) (by simp) (by simp) (by simp)
+    · exact h
+  | flushWait late =>
+    simp only [step]
+    rcases doFlushWait_cases s late with ⟨_, hd⟩ | ⟨_, hd⟩
+    · rw [hd]
+      have h2 := inv5_await late h
+      rcases waitAfter_cases (await s late) with ⟨_, he⟩ | ⟨_, he⟩
+      · rw [he]; exact inv5_congr h2 rfl rfl rfl rfl rfl
+      · rw [he]; exact inv5_congr h2 rfl rfl rfl rfl rfl
+    · rw [hd]; exact h
+  | stage =>
+    exact ⟨h.mbufKeys, (by
+      intro m hm
+      rcases List.mem_cons.mp hm with h1 | h1
+      · rw [h1]; exact h.mbufKeys
+      · exact h.stageKeys m h1), h.lockKeysNe, h.bounds⟩
+  | release => exact ⟨h.mbufKeys, fun m hm => h.stageKeys m (List.mem_of_mem_tail hm), h.lockKeysNe, h.bounds⟩
+  | cleanup =>
+    simp only [step]
+    cases hs : s.stages with
+    | nil => exact inv5_congr h rfl (by simp [hs]) rfl rfl rfl
+    | cons m rest =>
+      exact ⟨h.stageKeys m (by rw [hs]; simp), fun m' hm' => h.stageKeys m' (by rw [hs]; exact List.mem_cons_of_mem _ hm'),
+        h.lockKeysNe, h.bounds⟩
+
+theorem inv5_run (s : PState) (ops : List Op) (hok : ∀ op ∈ ops, op.keyOk = true) (h : Inv5 s) : Inv5 (run s ops) := by
+  induction ops generalizing s with
+  | nil => exact h
+  | cons op ops ih =>
+    unfold run
+    exact ih _ (fun o ho => hok o (List.mem_cons_of_mem _ ho)) (inv5_step op (hok op (by simp)) h)
+
+theorem inv5_init (cfg : Cfg) : Inv5 (init cfg) :=
+  ⟨fun e he => (by cases he), fun m hm => (by cases hm), fun k hk => (by cases hk), Or.inl ⟨rfl, rfl⟩⟩
+
 theorem down_pairwise : ∀ n, (down n).Pairwise (· > ·) ∧ ∀ g ∈ down n, 1 ≤ g ∧ g ≤ n
   | 0 => ⟨List.Pairwise.nil, by simp [down]⟩
   | n + 1 => by
